@@ -659,3 +659,21 @@ Proof. repeat split; reflexivity. Qed.
 
 Lemma id_walk_ok : walk_ok id_walk.
 Proof. repeat split; intros; apply Permutation_refl. Qed.
+
+(* ================= 8. classes that do not match are irrelevant (frame) ================= *)
+Lemma resolve_frame_l : forall e u rq c, criteria rq c = false -> precheck e u rq = None ->
+  resolve e (c :: u) rq = resolve e u rq.
+Proof.
+  intros e u rq c Hc Hp.
+  assert (P : precheck e (c :: u) rq = None).
+  { unfold precheck in *.
+    destruct (match ffw rq with Some x => negb (mem x (existing e)) | None => false end); [discriminate|].
+    destruct (nonempty (api rq) && negb (nonempty (api_set e rq))); [discriminate|].
+    destruct (match ffw rq with Some x => negb (mem x (api_set e rq)) | None => false end); [discriminate|].
+    destruct (negb (nonempty (filter (applicable rq) u))) eqn:E; [discriminate|].
+    cbn [filter]. destruct (applicable rq c); [reflexivity|]. rewrite E. reflexivity. }
+  assert (S : survivors e rq (c :: u) = survivors e rq u).
+  { unfold survivors, identified, accessible. cbn [filter]. destruct (applicable rq c); [|reflexivity].
+    cbn [map filter]. unfold keep at 1. cbn [fst snd]. rewrite Hc. reflexivity. }
+  unfold resolve. rewrite P, Hp, S. reflexivity.
+Qed.
